@@ -48,6 +48,10 @@ func (dec *Decoder) checkUTF8String(buf []byte, off, utf16Length int) (int, int,
 	return off, utf16Length, true
 }
 
+// maxStringPrealloc limits (in UTF-16 units) the buffer allocated ahead for a
+// string that does not fit in the read window.
+const maxStringPrealloc = 1 << 16
+
 func (dec *Decoder) fastReadStringAsBytes(utf16Length int) (data []byte) {
 	buf := dec.buf[dec.head:dec.tail]
 	off := 0
@@ -66,7 +70,9 @@ func (dec *Decoder) readStringAsBytes(utf16Length int) (data []byte, safe bool) 
 		return nil, true
 	}
 	length := dec.tail - dec.head
-	if length >= utf16Length*3 {
+	// no multiplication of the count: when reading from an io.Reader nothing has
+	// bounded it yet, and utf16Length*3 wraps around for a count near the int range
+	if utf16Length <= length/3 {
 		return dec.fastReadStringAsBytes(utf16Length), false
 	}
 	for {
@@ -89,7 +95,13 @@ func (dec *Decoder) readStringAsBytes(utf16Length int) (data []byte, safe bool) 
 		}
 		if !safe {
 			safe = true
-			data = make([]byte, 0, utf16Length*3)
+			// room for the announced count only as far as it is plausible; what
+			// really arrives beyond that makes the slice grow
+			n := utf16Length
+			if n > maxStringPrealloc {
+				n = maxStringPrealloc
+			}
+			data = make([]byte, 0, n*3)
 		}
 		data = append(data, buf...)
 		for {
